@@ -345,6 +345,10 @@ pub fn build_real<K: EnrKey>(
     first: Option<&K>,
 ) -> Result<Result<Enr<K>, ErrKind>, ()> {
     guard("Builder::build", || {
+        // no builder calls at all: the shortcut constructor
+        if calls.is_empty() && first.is_none() {
+            return Enr::<K>::empty(signer).map_err(|e| ErrKind::of(&e));
+        }
         let mut b = Enr::<K>::builder();
         for c in calls {
             match c {
